@@ -147,6 +147,12 @@ impl ProgressStyle {
             "at least 2 progress chars required"
         );
         self.char_width = width(&self.progress_chars);
+        // A zero-width cluster cannot fill a bar: dividing the bar width by it would panic
+        // (division by zero) later, inside a draw.
+        assert!(
+            self.char_width > 0,
+            "progress chars must have a non-zero width"
+        );
         self
     }
 
